@@ -76,7 +76,7 @@ Definition obs_eqb (a b : observed) : bool :=
   | _, _ => false
   end.
 
-(* decision-path class (never 0: there is no trivial early reject in this property) *)
+(* decision-path class (0 only for an interleaving input outside [wf]; the driver generates none) *)
 Definition op_class (o : op) : nat :=
   match o with
   | NewProvider _ _ [] => 1 | NewProvider _ _ _ => 2 | NewLegacyServer _ _ => 3
@@ -87,7 +87,7 @@ Definition op_class (o : op) : nat :=
 Definition path (i : input) (o : observed) : nat :=
   match i with
   | ISnap _ op => op_class op
-  | IOrder _ l _ => 20 + Nat.min 9 (List.length l)
+  | IOrder _ l _ => if wf i then 20 + Nat.min 9 (List.length l) else 0   (* 0: groups not on separate instances *)
   | IRace _ => 40
   end.
 
